@@ -294,8 +294,8 @@ func runPg(o opts) error {
 	add(trans, []pop{P("a", "1"), G("a"), G("a"), G("a")}, faultScript(5, 10), "corpus:translation-faults")
 	add(user, []pop{P("a", "1"), cls, G("a"), P("a", "2"), start, stop}, nil, "corpus:close")
 	add(user, []pop{start, P("a", "1"), cls, G("a")}, nil, "corpus:close-in-tx")
-	// K-C13-trfetch: the row fetch on the translated key fails; Get falls through to the
-	// default-language row and returns it without an error
+	// repaired (8748493, was K-C13-trfetch): the row fetch on the translated key fails; Get used to fall
+	// through to the default-language row and return it without an error, now it reports the fault
 	add(transD, []pop{P("a", "T"), G("a"), G("a")}, faultScript(5), "corpus:trfetch")
 	add(transD, []pop{G("a")}, faultScript(2), "corpus:trfetch-1")
 	add(pgCfg{pfx: db.DATATYPE_TEMPLATE, sid: "s"}, []pop{P("a", "1"), G("a")}, nil, "corpus:locked")
